@@ -166,7 +166,10 @@ def main():
     seed = int(os.environ.get("VERIF_SEED", "0") or 0)
     t0 = time.time()
     try:
-        fdir, th = ensure_facts()
+        if os.environ.get("CKB_VERIF_FACTS"):      # development harness only (bin/corpus_*.py): facts extracted earlier from a patched scratch copy
+            fdir, th = os.environ["CKB_VERIF_FACTS"], "corpus:" + os.path.basename(os.environ["CKB_VERIF_FACTS"])
+        else:
+            fdir, th = ensure_facts()
         F = Facts(fdir)
         for c, floor in CRATE_FLOORS.items():
             if c not in F.files:
@@ -250,6 +253,7 @@ def main():
             "functions_analysed": len(R.fns | F.touched),
             "call_sites_inspected": R.sites,
             "bodies_loaded": F.loaded_bodies,
+            "crates_loaded": sorted(F._crates),
             "facts_tree_hash": th,
             "not_decided": getattr(mod, "NOT_DECIDED", ""),
             "known_findings_matched": nknown,
